@@ -71,6 +71,7 @@ func cmdVerify(args []string) {
 	dump := fs.String("dump", "", "directory to dump failed queries")
 	timeout := fs.Int("timeout", 10000, "per-check timeout ms")
 	verbose := fs.Bool("v", false, "")
+	probe := fs.Bool("probe", false, "run the vacuity probe instead (assert false at every exit)")
 	fs.Parse(args)
 	prog, specs := loadAll(*repo, *prelude, *tags)
 	d := NewDischarger(*timeout, false)
@@ -82,7 +83,7 @@ func cmdVerify(args []string) {
 		}
 		ct := specs.Funcs[key]
 		t0 := time.Now()
-		u := VerifyUnit(prog, specs, f, ct, UnitOpts{})
+		u := VerifyUnit(prog, specs, f, ct, UnitOpts{ProbeExit: *probe})
 		insts := d.DischargeUnit(u)
 		res := aggregate(insts)
 		fmt.Printf("== %s: %d paths, %d obligations, %v\n", key, u.Paths, len(res), time.Since(t0))
